@@ -186,7 +186,11 @@ def r3(repo, chk, prog):
         ok = all(isinstance(s, ast.Expr) and isinstance(s.value, ast.Constant) or (isinstance(s, ast.Assign) and isinstance(s.targets[0], ast.Name)) for s in pre)
         chk.ob("R3", "nothing but local computation precedes that return", ok, "", rd.loc(guard))
     ds = Fn(repo, CONN + "datagrams_to_send")
-    g2 = [st for st in ds.node.body if isinstance(st, ast.If) and norm(st.test) == "self._state in END_STATES" and len(st.body) == 1 and isinstance(st.body[0], ast.Return) and norm(st.body[0].value) == "[]"]
+    def _end_test(t):
+        # `self._state in END_STATES`, possibly as one disjunct of an `or` (more reasons to send nothing)
+        return norm(t) == "self._state in END_STATES" or (isinstance(t, ast.BoolOp) and isinstance(t.op, ast.Or) and any(norm(v) == "self._state in END_STATES" for v in t.values))
+
+    g2 = [st for st in ds.node.body if isinstance(st, ast.If) and _end_test(st.test) and len(st.body) == 1 and isinstance(st.body[0], ast.Return) and norm(st.body[0].value) == "[]"]
     builders = ds.calls(name="QuicPacketBuilder")
     chk.ob("R3", "datagrams_to_send returns [] in an end state, before a builder exists", len(g2) == 1 and all(ds.before(g2[0], b) for b in builders), "", ds.loc(ds.node))
     # closing branch
